@@ -399,7 +399,7 @@ class TraceSet(object):
         do_jump = self.has_jump and (not ignore_jump)
         if xpos is None:
             xpos = djs_laxisgen([self.nTrace, self.nx], iaxis=1) + self.xmin
-        ypos = np.zeros(xpos.shape, dtype=xpos.dtype)
+        ypos = np.zeros(xpos.shape, dtype=np.result_type(xpos.dtype, np.float32))
         for iTrace in range(self.nTrace):
             xvec = self.xnorm(xpos[iTrace, :], do_jump)
             legarr = self._func_map[self.func](xvec, self.ncoeff)
